@@ -603,7 +603,9 @@ func c16MultiFile(chunk, chunks int) func(r *vp.InstResult) {
 // the same base name as a package the generated or the static code imports (fmt, gorums, encoding, ...). The
 // plugin must emit code that compiles whatever local names protogen hands out.
 func c16Imports(r *vp.InstResult) {
-	bases := []string{"encoding", "fmt", "gorums", "context", "proto", "protoreflect", "ordering", "grpc", "codes", "status", "emptypb", "sync", "time", "dev", "wire"}
+	// ... or like an identifier the generated bodies use locally (receivers, parameters, results)
+	bases := []string{"encoding", "fmt", "gorums", "context", "proto", "protoreflect", "ordering", "grpc", "codes", "status", "emptypb", "sync", "time", "dev", "wire",
+		"c", "n", "in", "req", "resp", "ctx", "err", "cd", "f", "r", "srv", "impl"}
 	scratch := filepath.Join(buildDir, "scratch", "imports")
 	os.RemoveAll(scratch)
 	defer os.RemoveAll(scratch)
